@@ -394,7 +394,7 @@ func Gen(t *rapid.T, o GenOpts) Script {
 			choices = append(choices, "reopen")
 		}
 		if o.Deletes {
-			choices = append(choices, "delete", "delete")
+			choices = append(choices, "delete", "delete", "nestdel")
 		}
 		if o.GC {
 			choices = append(choices, "gc")
@@ -484,6 +484,48 @@ func Gen(t *rapid.T, o GenOpts) Script {
 		case "delete":
 			if op, ok := genDelete(t, st); ok {
 				sc.Ops = append(sc.Ops, op)
+			}
+		case "nestdel":
+			// Nested deletes on one stored stretch of an index group: two one-sample cuts
+			// [s_i,s_i+1) and [s_j,s_j+1), j >= i+2, leave whole domains between them; a third
+			// delete then starts in the loose tail the first cut left (between s_i-1 and s_i),
+			// ends exactly on the start of the domain after the second cut and has to remove
+			// every whole domain in between.
+			var groups []uint32
+			for _, ix := range indexes {
+				if !st.groupBusy(ix) && len(st.M.Chans[ix].Samples) >= 6 {
+					groups = append(groups, ix)
+				}
+			}
+			if len(groups) == 0 {
+				continue
+			}
+			ix := rapid.SampledFrom(groups).Draw(t, "nd-group")
+			chans := append([]uint32{ix}, st.M.Dependants(ix)...)
+			sort.Slice(chans, func(a, b int) bool { return chans[a] < chans[b] })
+			all := map[uint32]bool{}
+			for _, k := range chans {
+				all[k] = true
+			}
+			ks := st.M.Chans[ix].Keys()
+			var is []int // i with room below s_i and at least three samples above
+			for i := 1; i+3 < len(ks); i++ {
+				if ks[i]-ks[i-1] >= 2 {
+					is = append(is, i)
+				}
+			}
+			if len(is) == 0 {
+				continue
+			}
+			i := rapid.SampledFrom(is).Draw(t, "nd-i")
+			j := rapid.IntRange(i+2, len(ks)-2).Draw(t, "nd-j")
+			for _, d := range []Op{
+				{Kind: "delete", Channels: chans, A: ks[i], B: ks[i+1]},
+				{Kind: "delete", Channels: chans, A: ks[j], B: ks[j+1]},
+				{Kind: "delete", Channels: chans, A: ks[i] - 1, B: ks[j+1]},
+			} {
+				ApplyDelete(st.M, d, all)
+				sc.Ops = append(sc.Ops, d)
 			}
 		case "wait":
 			sc.Ops = append(sc.Ops, Op{Kind: "wait", A: 1300})
